@@ -179,7 +179,10 @@ def build(chk):
         "machine arithmetic treated as mathematical (real) arithmetic ('to round-off')",
         "numflux through its contract with the mirror clause (proved for every registered flux in C02); mesh contract (C20)",
         "integrators and driver: linear in the residuals with a reflection-invariant time step (normal forms C05-C07)",
-        "UNITS: the change-of-units half of the statement is not decided by this check (see MANIFEST level_note)",
+        "UNITS: decided by dimensional typing of the symbolic residual and time step (pyvc/dimcheck.py): a derivation is a proof "
+        "of homogeneity over the reals for ALL inputs and scale factors; 'bit for bit for powers of two' follows from it under "
+        "the stated floating-point lemma (correctly rounded + - * / sqrt commute exactly with power-of-two scalings, x**y and "
+        "log only see dimensionless arguments, no overflow/underflow) and is exercised by the replay on the real code",
     ]
     # ---- the per-cell time step is reflection invariant (independent of reconstruction and boundaries) ------------------
     for kind in ("convection", "burgers", "shallowwater", "euler1d"):
@@ -340,3 +343,130 @@ def build(chk):
                                       T.treal(r2[k].at(i)) == ODD[kind][k] * T.treal(r1[k].at(j)), replay=rp)
                         canary("canary", T.treal(r2[0].at(cells[0][1])) == T.treal(r2[0].at(cells[0][1])) + 1)
                     chk.run(cfg, mir)
+
+
+# ======================================================================================================================
+# change of units
+
+from fractions import Fraction as _F
+
+# base units: (density-like unit a, velocity unit b, length unit l)
+def _u(*e):
+    return tuple(_F(x) for x in e)
+
+
+UNITS = {
+    # kind: (units of the conservative variables, {parameter: unit}, units of the bc parameters)
+    "convection": ([_u(1, 0, 0)], {"aconv": _u(0, 1, 0)}, {}),
+    "burgers": ([_u(0, 1, 0)], {}, {}),
+    "shallowwater": ([_u(1, 0, 0), _u(1, 1, 0)], {"grav": _u(-1, 2, 0)}, {}),
+    "euler1d": ([_u(1, 0, 0), _u(1, 1, 0), _u(1, 2, 0)], {"gamma": _u(0, 0, 0)},
+                {"ptot": _u(1, 2, 0), "rttot": _u(0, 2, 0), "p": _u(1, 2, 0)}),
+}
+PRIM_UNITS = {"convection": [_u(1, 0, 0)], "burgers": [_u(0, 1, 0)], "shallowwater": [_u(1, 0, 0), _u(0, 1, 0)],
+              "euler1d": [_u(1, 0, 0), _u(0, 1, 0), _u(1, 2, 0)]}
+RATE = _u(0, 1, -1)            # 1 / time
+
+
+def build_units(chk):
+    from pyvc.dimcheck import DimChecker, Mismatch
+    it = chk.interp
+    for kind in ("convection", "burgers", "shallowwater", "euler1d"):
+        fluxes = []
+
+        def enum(kind=kind):
+            m, info = make_model(chk, kind)
+            fluxes.extend(flux_names(m, kind))
+        chk.run("units/%s/enumerate" % kind, enum, always=True)
+        configs = []
+        nums = num_configs(chk)
+        for fl in fluxes:                                   # every flux with one reconstruction and the periodic closure
+            configs.append((fl, ("extrapol2", "extrapol2", None), ("per", "per")))
+        for label, cls, lim in nums:                        # every reconstruction / limiter with one flux
+            configs.append((fluxes[0], (label, cls, lim), ("per", "per")))
+        for bl, br in bc_pairs(kind):                       # every boundary pair
+            configs.append((fluxes[-1], ("extrapol2", "extrapol2", None), (bl, br)))
+            configs.append((fluxes[-1], ("extrapol1", "extrapol1", None), (br, bl) if (br, bl) in bc_pairs(kind) else (bl, br)))
+        seen = set()
+        for fl, (label, cls, lim), (bl, br) in configs:
+            key = (fl, label, bl, br)
+            if key in seen:
+                continue
+            seen.add(key)
+            cfg = "units/%s/%s/%s/%s-%s" % (kind, fl or "default", label, bl, br)
+            chk.configs.append(cfg)
+            rp = {"fn": "units_clause", "args": {"kind": kind, "flux": fl, "num": cls, "limiter": lim, "bcL": bl, "bcR": br}}
+
+            def un(kind=kind, fl=fl, cls=cls, lim=lim, bl=bl, br=br, rp=rp):
+                n = z3.Int("n")
+                assume(n >= 5)
+                mesh = abstract_mesh1d(chk, n)
+                m, info = make_model(chk, kind)
+                qunits, punits, bunits = UNITS[kind]
+                decl = {"xf": _u(0, 0, 1), "cfl": _u(0, 0, 0)}
+                decl.update(punits)
+                bL, bR = bc_dict(kind, bl, "L"), bc_dict(kind, br, "R")
+                for side, d in (("L", bL), ("R", bR)):
+                    for k, v in d.items():
+                        if k == "prim":
+                            for j, x in enumerate(v):
+                                decl[x.decl().name()] = PRIM_UNITS[kind][j]
+                        elif k != "type":
+                            decl[v.decl().name()] = bunits[k]
+                num = make_num(chk, cls, limiter=lim)
+                if cls == "extrapolk":
+                    decl["kappa"] = _u(0, 0, 0)
+                disc = make_disc1d(chk, m, mesh, num, flux=fl, bcL=bL, bcR=bR)
+                Q = []
+                for k, uq in enumerate(qunits):
+                    arr = A.input_array("Qu%d_" % k, n)
+                    decl[arr.uf.name()] = uq
+                    Q.append(arr)
+                fld = make_field(chk, m, mesh, Q)
+                with lazy_safety():
+                    res = it.call(it.getattr(disc, "rhs"), [fld], {})
+                    cfl = z3.Real("cfl")
+                    dts = it.call(it.getattr(disc, "calc_timestep"), [fld, cfl], {})
+                ii = z3.Int("i")
+                assume(z3.And(ii >= 2, ii <= n - 3))
+                cells = [("i=0", 0), ("i=1", 1), ("i=n-2", n - 2), ("i=n-1", n - 1), ("interior", ii)]
+                dc = DimChecker(3, decl)
+                add = lambda a_, b_: tuple(x + y for x, y in zip(a_, b_))
+                for nm, i in cells:
+                    for k, cn in enumerate(comp_names(kind)):
+                        term = T.treal(res[k].at(i))
+                        try:
+                            u = dc.unit(term)
+                            ok = u == "any" or u == add(qunits[k], RATE)
+                            msg = "unit %s, expected %s" % (u, add(qunits[k], RATE))
+                        except Mismatch as e:
+                            ok, msg = False, str(e)
+                        import os
+                        if not ok and os.environ.get("C13DBG"):
+                            print("DBG", nm, cn, msg[:400], flush=True)
+                        prove("residual-is-homogeneous/%s[%s]" % (nm, cn), bool(ok), replay=rp,
+                              note=("dimensional typing of the symbolic residual: " + msg)[:300])
+                    try:
+                        u = dc.unit(T.treal(dts.at(i)))
+                        ok = u == "any" or u == _u(0, -1, 1)
+                        msg = "unit %s" % (u,)
+                    except Mismatch as e:
+                        ok, msg = False, str(e)
+                    import os
+                    if not ok and os.environ.get("C13DBG"):
+                        print("DBG dt", nm, msg[:400], flush=True)
+                    prove("timestep-is-homogeneous/%s" % nm, bool(ok), replay=rp, note=("dimensional typing: " + msg)[:300])
+            chk.run(cfg, un)
+    chk.lemmas.append("units: a dimensional typing derivation of a term proves that it is homogeneous of the derived degree in "
+                      "the scale factors (induction on the term); integrators and driver: linear in the residuals with "
+                      "dimensionless coefficients, the time step has the unit of time (typed above)")
+    chk.lemmas.append("units, bit for bit: for power-of-two factors every typed operation commutes exactly with the scaling in "
+                      "IEEE arithmetic (no overflow/underflow assumed); exercised on the real code by replay_lib.units_clause")
+
+
+_build_reflection = build
+
+
+def build(chk):
+    _build_reflection(chk)
+    build_units(chk)
